@@ -75,6 +75,8 @@ def cases(tier):
     for target in ('LAMMPS', 'setfl'):
         for sub in itertools.chain.from_iterable(itertools.combinations(('cutoff', 'nr', 'cutoff_rho', 'nrho'), n) for n in range(5)):
             out.append(dict(kind='defaults', target=target, given=list(sub)))
+            # the same with [Variables] entries named like the omitted grid keys (used as ordinary placeholders elsewhere)
+            out.append(dict(kind='defaults', target=target, given=list(sub), variables=True))
     # (vi) end-to-end
     triples = [('0.1', 4, '0.3'), ('0.01', 1000, '9.99'), ('0.5', 5, '2.0'), ('0.05', 13, '0.6'), ('0.3', 4, '0.9'), ('0.07', 8, '0.49'),
                ('0.025', 17, '0.4'), ('0.2', 16, '3.0'), ('0.001', 101, '0.1'), ('0.15', 21, '3.0')]
@@ -213,7 +215,11 @@ def run_defaults(case):
     viol = []
     given = {'cutoff': '7.5', 'nr': '11', 'cutoff_rho': '42.0', 'nrho': '7'}
     opts = {k: given[k] for k in case['given']}
-    ini = '[Tabulation]\ntarget : %s\n%s\n[Pair]\nA-A : as.polynomial 1 2\n[EAM-Embed]\nA : as.polynomial 1 2\n[EAM-Density]\nA : as.polynomial 1 2\n[Species]\nA.atomic_number : 1\nA.atomic_mass : 1.0\n' % (
+    var = ''
+    if case.get('variables'):
+        names = [k for k in ('cutoff', 'nr', 'dr', 'cutoff_rho', 'nrho', 'drho') if k not in opts]
+        var = '[Variables]\n' + ''.join('%s : %s\n' % (k, {'cutoff': '6.5', 'nr': '77', 'dr': '0.002', 'cutoff_rho': '33.0', 'nrho': '55', 'drho': '0.001'}[k]) for k in names) + '\n'
+    ini = var + '[Tabulation]\ntarget : %s\n%s\n[Pair]\nA-A : as.polynomial 1 2\n[EAM-Embed]\nA : as.polynomial 1 2\n[EAM-Density]\nA : as.polynomial 1 2\n[Species]\nA.atomic_number : 1\nA.atomic_mass : 1.0\n' % (
         case['target'], ''.join('%s : %s\n' % kv for kv in opts.items()))
     tab = R.config_read(ini)
     want = dict(cutoff=10.0, nr=1001, cutoff_rho=100.0, nrho=1001)
